@@ -233,7 +233,7 @@ def side_case(seed):
 def run(ctx):
     quick = ctx.tier == 'quick'
     lib.stage_proof(ctx, PROP_FILES, ['Check/C19.vo'])
-    n = 200 if quick else 3000
+    n = 200 if quick else 6000
     cases, metas = [], []
     for k in range(n):
         cs = ctx.rng.getrandbits(48)
@@ -252,7 +252,7 @@ def run(ctx):
         cases.append(lit)
         metas.append({'desc': {'gen': 'gen_int_case', 'case_seed': cs, 'case': d}, 'tags': {'which': 'op%d' % d['op']}})
     bad = lib.stage_correspondence(ctx, 'tgedmd', REQ, 'check_C19', cases, metas)
-    n_side = 250 if quick else 4000
+    n_side = 250 if quick else 12000
     if bad:
         n_side *= 3
     for k in range(n_side):
